@@ -30,7 +30,11 @@ func getSwapInSenderStates() States {
 		Default: State{
 			Events: Events{
 				Event_SwapInSender_OnSwapInRequested: State_SwapInSender_CreateSwap,
+				Event_ActionFailed:                   State_SwapCanceled,
 			},
+			// A swap found in its initial state after a restart was
+			// stored but never started: nothing has been sent yet.
+			FailOnrecover: true,
 		},
 		State_SwapInSender_CreateSwap: {
 			Action: &SetBlindingKeyActionWrapper{next: &CreateSwapRequestAction{}},
